@@ -45,3 +45,8 @@ def laws_bounded(name, docs, groups, nsnames=('none',)):
 STRUCT = [M + 'match_empty', M + 'match_root']
 
 KIDS = [N + f for f in ('get_children', 'get_tag_children', 'get_text', 'get_own_text')] + [M + 'match_defined', M + 'match_placeholder_shown']
+
+
+def validate_bs4(ctx):
+    from pyvc import validate_bs4 as v
+    return v.sweep(ctx)
